@@ -2,17 +2,7 @@
    working tree) to the constants the hand-written model uses. A change of the implementation's
    tables makes this file fail to compile. *)
 From NS Require Import Tables Run.
-
-(* one representative per error constructor, in the alphabetical order of the Go type names *)
-Definition all_errs : list err :=
-  [ BadArityErr 0 0; BadPortionParsingErr; ExperimentalFeature; InvalidAccountName "";
-    InvalidAllotmentInSendAll; InvalidAllotmentSum; InvalidMonetaryLiteral; InvalidNumberLiteral;
-    InvalidTypeErr ""; InvalidUnboundedInSendAll ""; MetadataNotFound; MismatchedCurrencyError "" "";
-    MissingFundsErr "" 0 0; MissingVariableErr ""; NegativeAmountErr 0; NegativeBalanceError;
-    QueryBalanceError ""; QueryMetadataError ""; TypeError ""; UnboundFunctionErr ""; UnboundVariableErr "" ].
-
-Lemma all_errs_exhaustive : forall e, In (err_name e) (map err_name all_errs).
-Proof. intros e; destruct e; cbn; tauto. Qed.
+From NS Require Export ErrList.
 
 Lemma tables_ok_core :
   gentables_failed = "" /\
